@@ -294,12 +294,12 @@ def h_regex(i0: int, i1: int, r: int, ns: int, lst: bool):
     assert ok
 
 
-NEARV = [0, 1, 1.0, 1.0000000001, 1.1, 2, -1.5]
-NEARQ = [1, 1.0, [1.0], [1, 0.2], [1, 0.0, 0.11], [0, 1e-9, 1.0]]
+NEARV = [0, 1, 1.0, 1.0000000001, 1.1, 2, -1.5, 1e-10, -5e-10, 0.0]      # the last three: at / next to zero (relative tolerance never helps there)
+NEARQ = [1, 1.0, [1.0], [1, 0.2], [1, 0.0, 0.11], [0, 1e-9, 1.0], [0, 0.5], [0.0, 1e-3], [1e-10, 0.5]]
 
 
 def h_near(i0: int, i1: int, q: int, ns: int):
-    assert 0 <= i0 < 7 and 0 <= i1 < 7 and 0 <= q < 6 and 0 <= ns <= 1
+    assert 0 <= i0 < 10 and 0 <= i1 < 10 and 0 <= q < 9 and 0 <= ns <= 1
     fresh_path()
     ns = ci(ns, 0, 1)
     c = corpus2(ns, {"a": pick(NEARV, i0)}, {"a": pick(NEARV, i1)})
@@ -329,11 +329,11 @@ def _atomB(kind, r):
 def h_logic(tmpl: int, ka: int, kb: int, a0: int, a1: int, b0: int, b1: int, q: int, r: int, hasdoc: bool):
     """$and / $or / $not templates over one state point atom A and one document atom B: result == per-job evaluation
     (and therefore == intersection / union / complement of the operands' own results)"""
-    assert 0 <= tmpl < 10 and 0 <= ka <= 2 and 0 <= kb <= 2 and 0 <= a0 <= 1 and 0 <= a1 <= 1 and 0 <= b0 <= 2 and 0 <= b1 <= 2 and 0 <= q <= 1 and 0 <= r <= 1
+    assert 0 <= tmpl < 13 and 0 <= ka <= 2 and 0 <= kb <= 2 and 0 <= a0 <= 1 and 0 <= a1 <= 1 and 0 <= b0 <= 2 and 0 <= b1 <= 2 and 0 <= q <= 1 and 0 <= r <= 1
     assert part_ok(tmpl)
     assert kf_filter("C06.not_doc_root", tmpl in (3, 4, 5, 7, 8, 9))
     fresh_path()
-    tmpl, ka, kb, a0, a1, b0, b1, q, r, hasdoc = ci(tmpl, 0, 9), ci(ka, 0, 2), ci(kb, 0, 2), ci(a0, 0, 1), ci(a1, 0, 1), ci(b0, 0, 2), ci(b1, 0, 2), ci(q, 0, 1), ci(r, 0, 1), cb(hasdoc)
+    tmpl, ka, kb, a0, a1, b0, b1, q, r, hasdoc = ci(tmpl, 0, 12), ci(ka, 0, 2), ci(kb, 0, 2), ci(a0, 0, 1), ci(a1, 0, 1), ci(b0, 0, 2), ci(b1, 0, 2), ci(q, 0, 1), ci(r, 0, 1), cb(hasdoc)
     c = {"j0": ({"a": a0}, {"b": b0} if b0 < 2 else {}), "j1": ({"a": a1} if a1 < 1 or ka != 2 else {"x": 1}, ({"b": b1} if b1 < 2 else {}) if hasdoc else None)}
     A, B = _atomA(ka, q), _atomB(kb, r)
     if tmpl == 0:
@@ -356,8 +356,15 @@ def h_logic(tmpl: int, ka: int, kb: int, a0: int, a1: int, b0: int, b1: int, q: 
     elif tmpl == 8:
         flt = dict(B)
         flt["$not"] = A
-    else:
+    elif tmpl == 9:
         flt = {"$and": [{"$or": [A, {"$not": A}]}, {"$not": {"$not": B}}]}
+    elif tmpl == 10:
+        flt = {"$or": [A, {"a": 7}], "$not": B}                    # $or and $not side by side in ONE mapping
+    elif tmpl == 11:
+        flt = {"$or": [{"a": 7}, {"a": 8}], "$not": B}             # ... with an $or part that selects nothing
+    else:
+        flt = dict(A)
+        flt.update({"$or": [{"a": 7}, B], "$not": {"a": 9}, "$and": [{"$not": {"a": 8}}]})
     with nt():
         pr = mk(c)
         res = set(pr._find_job_ids(flt))
@@ -517,7 +524,7 @@ HARNESSES = [
     dict(name="h_list_of_mappings", timeout=(400, 900), parts=(10, 10)),
     dict(name="h_regex", timeout=(300, 900)),
     dict(name="h_near", timeout=(300, 900)),
-    dict(name="h_logic", twin="h_logic__reach", timeout=(400, 900), parts=(10, 10)),
+    dict(name="h_logic", twin="h_logic__reach", timeout=(400, 900), parts=(13, 13)),
     dict(name="h_independence", timeout=(400, 900), parts=(4, 4)),
     dict(name="h_logic_samekey", timeout=(400, 900), parts=(6, 6)),
     dict(name="h_keynames", timeout=(300, 600)),
